@@ -292,6 +292,35 @@ materialize(MatJob &mj, const JobSpec &s, IMB_MGR *hm, const LibImage *img)
         }
         default: break;
         }
+        if (s.minimal) {
+                // only what the documentation requires for this direction
+                const bool enc = s.dir == IMB_DIR_ENCRYPT;
+                switch (s.cipher) {
+                case IMB_CIPHER_CBC:
+                case IMB_CIPHER_ECB:
+                case IMB_CIPHER_CBCS_1_9:
+                case IMB_CIPHER_CFB:
+                case IMB_CIPHER_DES:
+                case IMB_CIPHER_DOCSIS_DES:
+                case IMB_CIPHER_DES3:
+                case IMB_CIPHER_GCM:
+                case IMB_CIPHER_GCM_SGL:
+                case IMB_CIPHER_SM4_GCM:
+                case IMB_CIPHER_SM4_ECB:
+                case IMB_CIPHER_SM4_CBC:
+                        if (enc)
+                                j.dec_keys = nullptr;
+                        else
+                                j.enc_keys = nullptr;
+                        break;
+                case IMB_CIPHER_DOCSIS_SEC_BPI:
+                        if (enc)
+                                j.dec_keys = nullptr;
+                        break;
+                case IMB_CIPHER_NULL: break;
+                default: j.dec_keys = nullptr; break;
+                }
+        }
         if (s.cipher == IMB_CIPHER_CBCS_1_9) {
                 mk(mj, O_NIV, 16, 1);
                 fill_bytes(mj.obj[O_NIV].p, 16, mix64(s.seed, 0x91));
